@@ -32,7 +32,7 @@ def run(chk, tier):
                        "specification (None outside 1..=55 or without a cut; previous time + 10 s after an end chunk; + mean duration + (mean attempts - 1) s when history "
                        "exists for the next chunk's (type, waveform, phase) key; else + 11/7/4 s). The rolling window is decided structurally: one push_back, and "
                        "the only removal is pop_front under len > 10; the means divide by the length under a non-empty guard.")
-    chk.trust("VecDeque::push_back appends, pop_front removes the oldest; DateTime + TimeDelta is exact addition; HashMap lookups are by the Hash/Eq of ChunkCharacteristics")
+    chk.trust("VecDeque::push_back appends, pop_front removes the oldest; DateTime + TimeDelta is exact addition; HashMap lookups are by the Eq of ChunkCharacteristics (decided: key-equality) and its Hash, trusted to be a deterministic function of the key")
     chk.assume("never-earlier-than-previous holds for the history branch only when recorded durations are non-negative and attempts >= 1 (the property's own domain)")
     mapping(chk, prog)
     estimate(chk, prog)
